@@ -18,7 +18,7 @@ from __future__ import annotations
 import itertools
 import json
 
-from .flowgen import D, P, pycmp, pyname
+from .flowgen import D, LAYOUTS, P, pycmp, pyname
 
 MISSING = {'missing': 1}
 ANY = object()
@@ -38,6 +38,27 @@ def prog_of(groups, run=None, children=None, ctx=None, **runkw):
     r.update(run or {})
     r.update(runkw)
     return {'pipes': pipes, 'run': r, 'rnd': []}
+
+
+def cover_first(cases, *keys):
+    """Reorder (stable): cases that show a not-yet-seen value of one of the key functions come first, so
+    that a short prefix of a shuffled family already covers every value of every listed dimension."""
+    seen, head, tail = set(), [], []
+    for c in cases:
+        ks = [(n, json.dumps(k(c), sort_keys=True, default=str)) for n, k in enumerate(keys)]
+        if any(x not in seen for x in ks):
+            seen.update(ks)
+            head.append(c)
+        else:
+            tail.append(c)
+    return head + tail
+
+
+def with_layout(prog, lay):
+    if lay is not None:
+        for pipe in prog['pipes']:
+            pipe['layout'] = dict(lay)
+    return prog
 
 
 # --------------------------------------------------------------------------
@@ -79,6 +100,15 @@ def judge(expect, obs):
         if not ok:
             out.append(f'events (tag,i,w,r) {got} but the property requires '
                        f'{[tuple("*" if y is ANY else y for y in x) for x in exp]}')
+    if 'events_of' in expect:
+        tg = expect['events_of']['tag']
+        got = [(e['tag'], e['i'], e['w'], e['r']) for e in trace if e['tag'] == tg]
+        exp = expect['events_of']['events']
+        ok = len(got) == len(exp) and all(
+            g[0] == x[0] and all(x[j] is ANY or g[j] == x[j] for j in (1, 2, 3)) for g, x in zip(got, exp))
+        if not ok:
+            out.append(f'events (tag,i,w,r) of {tg} are {got} but the property requires '
+                       f'{[tuple("*" if y is ANY else y for y in x) for x in exp]}')
     if 'outcome' in expect:
         oc = obs.get('outcome')
         exp = expect['outcome']
@@ -89,7 +119,10 @@ def judge(expect, obs):
                 out.append('run reported success but did not return the context')
         else:
             name = oc['err']['name'] if isinstance(oc, dict) and 'err' in oc else None
-            if name != exp[1]:
+            if exp[1] is ANY:
+                if name is None:
+                    out.append(f'caller must receive an error but got {oc}')
+            elif name != exp[1]:
                 out.append(f'caller must receive {exp[1]} but got {oc}')
             elif 'err_msg' in expect and oc['err'].get('msg') != expect['err_msg']:
                 out.append(f"caller must receive the original error '{expect['err_msg']}' but got "
@@ -319,6 +352,110 @@ def c01_random_straight(rng, n):
                straight_oracle(groups, run), {'family': 'c01-random-straight'})
 
 
+# what can stand under a failure group's name instead of a sequence of steps (yaml slips), and sequences
+# whose items are no steps. {'scalar': v} = a body that is no sequence; {'item': v} = an item that is
+# neither a step name nor a step mapping.
+MALFORMED_BODIES = {
+    'int': {'scalar': 42}, 'zero': {'scalar': 0}, 'float': {'scalar': {'f': [3, 1]}}, 'true': {'scalar': True},
+    'false': {'scalar': False}, 'str': {'scalar': 'zq'}, 'empty-str': {'scalar': ''},
+    'mapping': {'scalar': D(nomodule_k=1, other=2)}, 'empty-mapping': {'scalar': D()},
+    'int-key-mapping': {'scalar': {'d': [[1, 2]]}}, 'py-scalar': {'scalar': {'py': {'c': 1}}},
+    'sic-scalar': {'scalar': {'sic': 'x'}},
+    'null': None, 'empty-list': [],
+    'item-int': [{'item': 1}], 'item-null': [{'item': None}], 'item-list': [{'item': [1, 2]}],
+    'item-float': [{'item': {'f': [1, 1]}}], 'item-bool': [{'item': True}], 'item-empty-str': [''],
+    'item-nameless-mapping': [{'in': [['a', 1]]}], 'item-name-int': [{'name': 5}],
+    'item-name-list': [{'name': [1]}], 'item-name-zero': [{'name': 0, 'in': [['a', 1]]}],
+    'item-unknown-module': ['nomodule.h'],
+    'step-then-item': [probe('H1'), {'item': 3}, probe('H2')],
+    'step-then-str-step': [probe('H1'), 'nomodule.h', probe('H2')],
+}
+
+
+def c01_malformed_failure_family(rng, n):
+    """A step fails; the failure group is malformed in each way. Whatever goes wrong while the failure group
+    is looked up or run is an error 'raised inside the failure group': the caller receives the ORIGINAL
+    error. Positions: the pipeline's own on_failure, a failure group named by the run arguments, the
+    `failure` of a call / jump step, the on_failure of a child pipeline."""
+    errs = ['ValueError', 'vprobe.ProbeError', 'RuntimeError']
+    cases = []
+    for bname in MALFORMED_BODIES:
+        for where in ('on_failure', 'run-arg', 'call', 'jump', 'child', 'call-str-name'):
+            for at in (0, 1, 2):
+                cases.append((bname, where, at))
+    rng.shuffle(cases)
+    cases = cover_first(cases, lambda c: c[0], lambda c: c[1])
+    for idx, (bname, where, at) in enumerate(cases[:n]):
+        body = json.loads(json.dumps(MALFORMED_BODIES[bname]))
+        handler_tags = ['H1'] if bname.startswith('step-then') else []
+        err = errs[idx % 3]
+        main = [probe(f's{k}', failRest=err) if k == at else probe(f's{k}') for k in range(3)]
+        ran = [f's{k}' for k in range(at + 1)]
+        children = {}
+        if where == 'on_failure':
+            groups = [['steps', main], ['on_success', [probe('OS')]], ['on_failure', body]]
+            run, tags = {}, ran + handler_tags
+        elif where == 'run-arg':
+            groups = [['steps', main], ['on_success', [probe('OS')]], ['hf', body], ['on_failure', [probe('WRONG')]]]
+            run, tags = {'failure': 'hf'}, ran + handler_tags
+        elif where in ('call', 'jump', 'call-str-name'):
+            cfg = D(groups=['sg'], success='sgs', failure='sgf')
+            cs = {'name': 'pypyr.steps.' + ('jump' if where == 'jump' else 'call'),
+                  'in': [['jump' if where == 'jump' else 'call', cfg]]}
+            groups = [['steps', [probe('A'), cs, probe('B')]], ['sg', main], ['sgs', [probe('SGS')]], ['sgf', body],
+                      ['on_success', [probe('OS')]], ['on_failure', [probe('OF')]]]
+            # the original error then leaves the calling step and reaches the pipeline's own failure group
+            run, tags = {}, ['A'] + ran + handler_tags + ['OF']
+        else:
+            children['child'] = [['steps', main], ['on_success', [probe('COS')]], ['on_failure', body]]
+            groups = [['steps', [probe('A'), {'name': 'pypyr.steps.pype', 'in': [['pype', D(name='child')]]},
+                                 probe('B')]], ['on_success', [probe('OS')]], ['on_failure', [probe('OF')]]]
+            run, tags = {}, ['A'] + ran + handler_tags + ['OF']
+        exp = {'tags': tags, 'outcome': ('err', err), 'err_msg': f'boom s{at}'}
+        yield (prog_of(groups, run=run, children=children, ctx={'k': 'v'}), exp,
+               {'family': 'c01-malformed-failure-group', 'body': bname, 'where': where})
+
+
+NOOP_BODIES = ('empty-str', 'empty-mapping', 'null', 'empty-list')
+
+
+def c01_malformed_group_family(rng, n):
+    """The same malformed shapes where a requested group, the success group or a called / jumped-to group
+    stands. Whatever error the shape provokes is an error of the main phase like any other: nothing after
+    it runs, the failure group runs once, the caller receives that error (which error: model = code)."""
+    cases = []
+    for bname in MALFORMED_BODIES:
+        for where in ('requested', 'success', 'call', 'jump'):
+            cases.append((bname, where))
+    rng.shuffle(cases)
+    cases = cover_first(cases, lambda c: c[0], lambda c: c[1])
+    for bname, where in cases[:n]:
+        body = json.loads(json.dumps(MALFORMED_BODIES[bname]))
+        inner = ['H1'] if bname.startswith('step-then') else []
+        noop = bname in NOOP_BODIES
+        if where == 'requested':
+            groups = [['steps', [probe('A')]], ['bad', body], ['post', [probe('P')]], ['on_success', [probe('OS')]],
+                      ['on_failure', [probe('OF')]]]
+            run = {'groups': ['steps', 'bad', 'post'], 'success': 'on_success', 'failure': 'on_failure'}
+            tags = ['A', 'P', 'OS'] if noop else ['A'] + inner + ['OF']
+        elif where == 'success':
+            groups = [['steps', [probe('A')]], ['on_success', body], ['on_failure', [probe('OF')]]]
+            run = {}
+            tags = ['A'] if noop else ['A'] + inner + ['OF']
+        else:
+            cs = {'name': 'pypyr.steps.' + where, 'in': [[where, 'bad']]}
+            groups = [['steps', [probe('A'), cs, probe('B')]], ['bad', body], ['on_success', [probe('OS')]],
+                      ['on_failure', [probe('OF')]]]
+            run = {}
+            if noop:
+                tags = ['A', 'B', 'OS'] if where == 'call' else ['A', 'OS']
+            else:
+                tags = ['A'] + inner + ['OF']
+        exp = {'tags': tags, 'outcome': 'ok' if noop else ('err', ANY)}
+        yield (prog_of(groups, run=run, ctx={'k': 'v'}), exp,
+               {'family': 'c01-malformed-group', 'body': bname, 'where': where})
+
+
 # --------------------------------------------------------------------------
 # C02: signal kind x raising position x decorators of the raising step and of the carrier
 # --------------------------------------------------------------------------
@@ -502,37 +639,54 @@ def c02_case(sig, pos, sd, cd):
 # C03: counters restored after call; jump abandons; switch first true
 # --------------------------------------------------------------------------
 
+# foreach item lists of a calling step. The caller's CURRENT item is what must be back in `i` once the call
+# returned - whatever that item is: falsy values (None, 0, '', False, [], {}) are items like any other.
+C03_ITEM_LISTS = [[10, 20], ['a', None], [None], [None, 'b'], [1, 0], ['x', ''], [True, False], [[1], []],
+                  [D(a=1), D()], [0], [False, None, 0, '', [], D()]]
+
+
+def c03_caller(caller, target):
+    if caller == 'call':
+        return {'name': 'pypyr.steps.call', 'in': [['call', target]]}
+    return {'name': 'pypyr.steps.switch',
+            'in': [['switch', [D(case=False, call='nogroup'), D(case=True, call=target), D(default='nogroup')]]]}
+
+
 def c03_family(rng, n):
     cases = []
     clobbers = {
         'keep': [probe('K')],
         'set': [{'name': 'pypyr.steps.set', 'in': [['set', D(i='clob', whileCounter=99, retryCounter=77,
-                                                            call='other')]]}, probe('K')],
-        'probe_set': [probe('K', set=D(i=[1], whileCounter=True, retryCounter=1.0 if False else 5))],
+                                                            call='other', switch='other')]]}, probe('K')],
+        'probe_set': [probe('K', set=D(i=[1], whileCounter=True, retryCounter=5))],
         'loops': [dict(probe('K'), foreach=[7, 8], **{'while': {'max': 3}}, retry={'max': 1})],
         'delete': [probe('K'), {'name': 'pypyr.steps.contextclear',
-                                'in': [['contextClear', ['i', 'whileCounter', 'retryCounter', 'call']]]}],
+                                'in': [['contextClear', ['i', 'whileCounter', 'retryCounter', 'call', 'switch']]]}],
         'clearall': [probe('K'), 'pypyr.steps.contextclearall'],
         'nested_call': [probe('K'), {'name': 'pypyr.steps.call', 'in': [['call', 'g2']], 'foreach': [5, 6]}],
     }
-    decos = [('foreach', [10, 20]), ('while', {'max': 2, 'stop': pycmp('whileCounter', '>=', 2)}),
+    decos = [('foreach', None), ('while', {'max': 2, 'stop': pycmp('whileCounter', '>=', 2)}),
              ('retry', {'max': 2})]
     for cname, cl in clobbers.items():
         for dd in subsets(decos):
             if not dd:
                 continue
             for depth in (1, 2):
-                cases.append((cname, cl, dd, depth))
+                for caller in ('call', 'switch'):
+                    for items in (C03_ITEM_LISTS if any(k == 'foreach' for k, _ in dd) else [None]):
+                        cases.append((cname, cl, dd, depth, caller, items))
     rng.shuffle(cases)
-    for cname, cl, dd, depth in cases[:n]:
-        cs = {'name': 'pypyr.steps.call', 'in': [['call', 'g1' if depth == 1 else 'g0']]}
+    cases = cover_first(cases, lambda c: c[5], lambda c: c[0], lambda c: (c[4], c[3]),
+                        lambda c: [k for k, _ in c[2]])
+    for cname, cl, dd, depth, caller, items in cases[:n]:
+        cs = c03_caller(caller, 'g1' if depth == 1 else 'g0')
         for k, v in dd:
-            cs[k] = v
-        after = probe('AFTER', keys=['call'])
+            cs[k] = items if k == 'foreach' else v
+        after = probe('AFTER', keys=['call', 'switch'])
         groups = [['steps', [cs, after]], ['g0', [{'name': 'pypyr.steps.call', 'in': [['call', 'g1']]}]],
-                  ['g1', cl], ['g2', [probe('K2', set=D(i='deep'))]]]
+                  ['g1', json.loads(json.dumps(cl))], ['g2', [probe('K2', set=D(i='deep'))]]]
         has = dict(dd)
-        f_items = [10, 20] if 'foreach' in has else [None]
+        f_items = items if 'foreach' in has else [None]
         w_items = [1, 2] if 'while' in has else [None]
         # one callee entry per (while, foreach) iteration: the stop expression `whileCounter >= 2` is
         # evaluated on the *restored* counter, so exactly two while iterations happen
@@ -544,11 +698,53 @@ def c03_family(rng, n):
             if cname == 'nested_call':
                 tags += ['K2', 'K2']
         tags.append('AFTER')
-        ev_after = ('AFTER', 20 if 'foreach' in has else ANY, 2 if 'while' in has else ANY,
+        # after the calling step: `i` is the caller's last item - whatever value that is
+        ev_after = ('AFTER', items[-1] if 'foreach' in has else ANY, 2 if 'while' in has else ANY,
                     1 if 'retry' in has else ANY)
         exp = {'tags': tags, 'outcome': 'ok', 'nerr': 0, 'after_event': ev_after}
         yield prog_of(groups, ctx={'k': 'v'}), exp, {'family': 'c03-restore', 'clobber': cname,
-                                                      'caller_decorators': sorted(has), 'depth': depth}
+                                                      'caller': caller, 'caller_decorators': sorted(has),
+                                                      'depth': depth, 'items': json.dumps(items)}
+
+
+def c03_midloop_family(rng, n):
+    """The caller's counters are back after EVERY call, not only after the last iteration: the called group
+    overwrites / removes the counters and then fails; the calling step's retry enters the called group a
+    second time, whose first probe shows the counters the caller had - per foreach item and while round."""
+    E = 'ValueError'
+    clobbers = {
+        'set': [{'name': 'pypyr.steps.set', 'in': [['set', D(i='clob', whileCounter=99, retryCounter=77)]]}],
+        'loops': [dict(probe('L'), foreach=[7, 8], **{'while': {'max': 2}}, retry={'max': 1})],
+        'delete': [{'name': 'pypyr.steps.contextclear', 'in': [['contextClear', ['i', 'whileCounter',
+                                                                                  'retryCounter']]]}],
+    }
+    cases = []
+    for items in C03_ITEM_LISTS:
+        for with_while in (False, True):
+            for cname in clobbers:
+                for caller in ('call', 'switch'):
+                    cases.append((items, with_while, cname, caller))
+    rng.shuffle(cases)
+    cases = cover_first(cases, lambda c: c[0], lambda c: (c[1], c[2], c[3]))
+    for items, with_while, cname, caller in cases[:n]:
+        ws = [1, 2] if with_while else [None]
+        total = len(items) * len(ws)
+        cs = c03_caller(caller, 'g1')
+        cs['foreach'] = items
+        cs['retry'] = {'max': 2}
+        if with_while:
+            cs['while'] = {'max': 2}
+        callee = [probe('K')] + json.loads(json.dumps(clobbers[cname])) + [probe('X', fails=[E, None] * total)]
+        groups = [['steps', [cs, probe('AFTER')]], ['g1', callee]]
+        kev = []
+        for w in ws:
+            for x in items:
+                kev += [('K', x, ANY if w is None else w, 1), ('K', x, ANY if w is None else w, 2)]
+        exp = {'events_of': {'tag': 'K', 'events': kev}, 'outcome': 'ok', 'nerr': total,
+               'after_event': ('AFTER', items[-1], 2 if with_while else ANY, 2)}
+        yield prog_of(groups, ctx={'k': 'v'}), exp, {'family': 'c03-restore-midloop', 'clobber': cname,
+                                                      'caller': caller, 'while': with_while,
+                                                      'items': json.dumps(items)}
 
 
 def c03_switch_family(rng, n):
@@ -902,23 +1098,111 @@ def c06_family(rng, n):
     yield from out[:n]
 
 
+def c06_reentry_family(rng, n):
+    """One step enters its retry loop several times (retry inside foreach / while): every entry is a retry
+    loop of its own - attempts count from 1 again and the sleep schedule starts afresh, from the decorator
+    values as they format at that entry (`sleep: '{i}'`, a list-valued sleep starting over)."""
+    E = 'ValueError'
+    kinds = ['fixed', 'linear', 'exponential', 'jitter', 'linearjitter', 'exponentialjitter']
+    cases = []
+    for kind in kinds:
+        for loop in ('foreach', 'while'):
+            forms = ['number', 'expr']
+            if kind in ('fixed', 'jitter'):
+                forms += ['list', 'list1', 'listexpr']
+            for form in forms:
+                for fails in ([2, 2], [1, 0, 2], [3, 1], [0, 2, 2], [1, 1, 1], [2, 5]):
+                    for mx in (5, None, 3):
+                        if mx is None and fails[-1] >= 5:
+                            continue
+                        cases.append((kind, loop, form, fails, mx))
+    rng.shuffle(cases)
+    cases = cover_first(cases, lambda c: (c[0], c[1]), lambda c: (c[0], c[2]), lambda c: c[3], lambda c: c[4])
+    for kind, loop, form, fails, mx in cases[:n]:
+        nent = len(fails)
+        vals = [10, 20, 4][:nent] if loop == 'foreach' else list(range(1, nent + 1))   # i / whileCounter per entry
+        var = 'i' if loop == 'foreach' else 'whileCounter'
+        if form == 'number':
+            sleep, per_entry = 2, [2] * nent
+        elif form == 'expr':
+            sleep, per_entry = '{' + var + '}', list(vals)
+        elif form == 'list':
+            sleep, per_entry = [1, 2, 4], [[1, 2, 4]] * nent
+        elif form == 'list1':
+            sleep, per_entry = [3], [[3]] * nent
+        else:
+            sleep, per_entry = [1, '{' + var + '}', 7], [[1, v, 7] for v in vals]
+        sleep_max = rng.choice([None, None, 15, 100])
+        base = rng.choice([None, 2, 3])
+        jrc = rng.choice([0, {'f': [1, 1]}, {'f': [1, 2]}, 1])
+        rt = {'sleep': sleep, 'backoff': kind}
+        if mx is not None:
+            rt['max'] = mx
+        if sleep_max is not None:
+            rt['sleepMax'] = sleep_max
+        if base is not None:
+            rt['backoffArgs'] = D(base=base)
+        if 'jitter' in kind:
+            rt['jrc'] = jrc
+        script = []
+        for f in fails:
+            script += [E] * f + [None]
+        st = probe('R', fails=script)
+        st['retry'] = rt
+        if loop == 'foreach':
+            st['foreach'] = vals
+        else:
+            st['while'] = {'max': nent}
+        prog = prog_of([['steps', [st, probe('Z')]]])
+        prog['rnd'] = [[rng.randint(0, 4), 2] for _ in range(16)]
+        jv = jrc['f'][0] / (1 << jrc['f'][1]) if isinstance(jrc, dict) else jrc
+        events, sleeps, outcome = [], [], 'ok'
+        for e, f in enumerate(fails):
+            pos = (vals[e], ANY) if loop == 'foreach' else (ANY, vals[e])
+            if loop == 'while' and e:
+                sleeps.append((0, 0))          # the while loop's own pause between its iterations (sleep: 0)
+            for k in range(1, f + 2):
+                events.append(('R', pos[0], pos[1], k))
+                if k == f + 1:
+                    break                      # this attempt succeeds: no sleep after success
+                if mx and k == mx:
+                    outcome = ('err', E)       # attempts exhausted: no sleep after the last attempt
+                    break
+                d = backoff_value(kind, per_entry[e], k, sleep_max, base if base is not None else 2)
+                sleeps.append((min(jv * d, d), max(jv * d, d)) if 'jitter' in kind else (d, d))
+            if outcome != 'ok':
+                break
+        if outcome == 'ok':
+            events.append(('Z', ANY, ANY, ANY))
+        exp = {'events': events, 'outcome': outcome, 'sleep_bounds': sleeps, 'nerr': 0 if outcome == 'ok' else 1}
+        yield prog, exp, {'family': 'c06-retry-reentry', 'kind': kind, 'loop': loop, 'sleep': form,
+                          'failures_per_entry': fails, 'max': mx}
+
+
 # --------------------------------------------------------------------------
 # C07: runErrors entries
 # --------------------------------------------------------------------------
 
 def c07_family(rng, n):
-    out = []
+    """Entries name the failing step and the place of that step in the pipeline yaml: `at` refers to the step
+    of the program; the renderer records where it writes that step (harness/flow_impl.render_pipe), which is
+    what the entry's line/col must be - in every way of writing the same document (`LAYOUTS`)."""
+    base = []
     # (1) failing step in a foreach with swallow: one entry per failing iteration, in order, accurate fields
     for items, failing in [([1, 2, 3], [2]), ([1, 2, 3], [1, 3]), ([1, 2], [1, 2]), ([1, 2, 3], [])]:
         st = probe('F', failIf={'py': {'op': 'in', 'a': {'n': 'i'}, 'b': {'n': 'bad'}}}, msg='it failed')
         st['foreach'] = items
         st['swallow'] = True
         st['onError'] = D(code=7, who='{k1}', at='{i}')
-        prog = prog_of([['steps', [probe('A'), st, probe('Z')]]], ctx={'bad': failing, 'k1': 'v1'})
-        entries = [{'name': 'vprobe.ProbeError', 'description': 'it failed', 'step': 'vprobe', 'swallowed': True,
-                    'customError': D(code=7, who='v1', at=x), 'line': 'LINE:1', 'col': 5} for x in failing]
-        out.append((prog, {'entries': entries, 'outcome': 'ok', 'tags': ['A'] + ['F'] * len(items) + ['Z']},
-                    {'family': 'c07-swallow-loop', 'failing': failing}))
+        for first in (False, True):
+            # `first`: the failing step is the very first step of the pipeline (in a flow-style document: line 1)
+            steps = [st, probe('Z')] if first else [probe('A'), st, probe('Z')]
+            prog = prog_of([['steps', steps]], ctx={'bad': failing, 'k1': 'v1'})
+            entries = [{'name': 'vprobe.ProbeError', 'description': 'it failed', 'step': 'vprobe', 'swallowed': True,
+                        'customError': D(code=7, who='v1', at=x), 'at': st} for x in failing]
+            base.append((prog, {'entries': entries, 'outcome': 'ok',
+                                'tags': ([] if first else ['A']) + ['F'] * len(items) + ['Z']},
+                         {'family': 'c07-swallow-loop', 'failing': failing, 'first_step': first}))
     # (2) retry: attempts recovered add nothing; exhausted adds exactly one (the last attempt's)
     for fails, mx in [(['ValueError', None], 3), (['ValueError', 'TypeError', None], 3),
                       (['ValueError', 'TypeError', 'RuntimeError'], 3), (['ValueError'], 1)]:
@@ -930,13 +1214,13 @@ def c07_family(rng, n):
             if sw:
                 s2['swallow'] = True
             entries = [] if last is None else [{'name': last, 'description': 'boom R', 'swallowed': sw,
-                                                 'step': 'vprobe', 'customError': D(), 'line': 'LINE:0'}]
+                                                 'step': 'vprobe', 'customError': D(), 'at': s2}]
             outcome = 'ok' if (last is None or sw) else ('err', last)
-            out.append((prog_of([['steps', [s2, probe('Z')]]]),
-                        {'entries': entries, 'outcome': outcome},
-                        {'family': 'c07-retry', 'script': fails, 'max': mx, 'swallow': sw}))
+            base.append((prog_of([['steps', [s2, probe('Z')]]]),
+                         {'entries': entries, 'outcome': outcome},
+                         {'family': 'c07-retry', 'script': fails, 'max': mx, 'swallow': sw}))
     # (3) error inside called groups (depth 1..3), caller swallowed / retried / plain: recorded once, by the
-    #     failing step only
+    #     failing step only - with the failing step's own position, not the calling step's
     for depth in (1, 2, 3):
         for caller in ('plain', 'swallow', 'retry', 'retry+swallow', 'foreach+swallow'):
             groups = [['steps', None]]
@@ -947,41 +1231,73 @@ def c07_family(rng, n):
                 cs['retry'] = {'max': 2}
             if 'foreach' in caller:
                 cs['foreach'] = ['x', 'y']
-            groups[0][1] = [probe('A'), cs, probe('Z')]
+            groups[0][1] = [cs, probe('Z')]
+            bad = probe('BAD', failRest='vprobe.OtherError', msg='deep')
             for d in range(1, depth + 1):
                 if d < depth:
                     groups.append([f'g{d}', [probe(f'C{d}'), {'name': 'pypyr.steps.call', 'in': [['call', f'g{d+1}']]}]])
                 else:
-                    groups.append([f'g{d}', [probe(f'C{d}'), probe('BAD', failRest='vprobe.OtherError', msg='deep')]])
+                    groups.append([f'g{d}', [probe(f'C{d}'), bad]])
             times = 1
             if 'retry' in caller:
                 times *= 2
             if 'foreach' in caller:
                 times *= 2
-            entries = [{'name': 'vprobe.OtherError', 'description': 'deep', 'step': 'vprobe', 'swallowed': False}
-                       for _ in range(times)]
+            entries = [{'name': 'vprobe.OtherError', 'description': 'deep', 'step': 'vprobe', 'swallowed': False,
+                        'at': bad} for _ in range(times)]
             outcome = 'ok' if 'swallow' in caller else ('err', 'vprobe.OtherError')
-            out.append((prog_of(groups), {'entries': entries, 'outcome': outcome},
-                        {'family': 'c07-called', 'depth': depth, 'caller': caller}))
+            base.append((prog_of(groups), {'entries': entries, 'outcome': outcome},
+                         {'family': 'c07-called', 'depth': depth, 'caller': caller}))
     # (4) failure handler failing too: both recorded, chronological; signals add nothing
-    groups = [['steps', [probe('A', failRest='ValueError', msg='first')]],
-              ['on_failure', [probe('H', failRest='TypeError', msg='second'), probe('N')]]]
-    out.append((prog_of(groups), {'entries': [{'name': 'ValueError', 'description': 'first'},
-                                              {'name': 'TypeError', 'description': 'second'}],
-                                  'outcome': ('err', 'ValueError'), 'err_msg': 'first'},
-                {'family': 'c07-handler-fails'}))
+    a, h = probe('A', failRest='ValueError', msg='first'), probe('H', failRest='TypeError', msg='second')
+    groups = [['steps', [a]], ['on_failure', [h, probe('N')]]]
+    base.append((prog_of(groups), {'entries': [{'name': 'ValueError', 'description': 'first', 'at': a},
+                                               {'name': 'TypeError', 'description': 'second', 'at': h}],
+                                   'outcome': ('err', 'ValueError'), 'err_msg': 'first'},
+                 {'family': 'c07-handler-fails'}))
+    # (5) a failing step in a child pipeline written in another layout than its parent: the entry carries
+    #     the place in the child's document
+    cbad = probe('CB', failRest='ValueError', msg='child step')
+    cbad['swallow'] = True
+    groups = [['steps', [probe('A'), {'name': 'pypyr.steps.pype', 'in': [['pype', D(name='child')]]}, probe('Z')]]]
+    base.append((prog_of(groups, children={'child': [['steps', [cbad, probe('C2')]]]}),
+                 {'entries': [{'name': 'ValueError', 'description': 'child step', 'swallowed': True, 'at': cbad}],
+                  'outcome': 'ok', 'tags': ['A', 'CB', 'C2', 'Z']}, {'family': 'c07-child-layout'}))
+    out = []
+    for bi, (prog, exp, meta) in enumerate(base):
+        for li, lay in enumerate(LAYOUTS):
+            out.append((bi, li, lay))
     rng.shuffle(out)
-    yield from out[:n]
+    out = cover_first(out, lambda c: c[1], lambda c: c[0])
+    for bi, li, lay in out[:n]:
+        prog, exp, meta = base[bi]
+        # a fresh copy of program and expectation, the `at` references re-pointed into the copy
+        steps0 = [st for pipe in prog['pipes'] for _, ss in pipe['groups'] for st in (ss or [])]
+        prog2 = json.loads(json.dumps(prog))
+        steps2 = [st for pipe in prog2['pipes'] for _, ss in pipe['groups'] for st in (ss or [])]
+        exp2 = dict(exp)
+        if 'entries' in exp:
+            exp2['entries'] = []
+            for e in exp['entries']:
+                e2 = dict(e)
+                if 'at' in e2:
+                    e2['at'] = steps2[next(k for k, x in enumerate(steps0) if x is e['at'])]
+                exp2['entries'].append(e2)
+        with_layout(prog2, lay)
+        if meta['family'] == 'c07-child-layout':
+            prog2['pipes'][0].pop('layout', None)     # the parent stays in block style
+        yield prog2, exp2, dict(meta, layout=json.dumps(lay))
 
 
 def fix_lines(prog, expect):
-    """Entries written as line 'LINE:k' refer to the k-th complex step of main.steps (0-based)."""
+    """An entry given with `at` (a complex step of the program) must carry the line and column at which the
+    renderer wrote that step."""
     from .flow_impl import prepare
     prepare(prog)
-    steps = [s for s in dict((g, ss) for g, ss in prog['pipes'][0]['groups'])['steps'] if isinstance(s, dict)]
     for e in expect.get('entries') or []:
-        if isinstance(e.get('line'), str) and e['line'].startswith('LINE:'):
-            e['line'] = steps[int(e['line'][5:])]['line']
+        if 'at' in e:
+            st = e.pop('at')
+            e['line'], e['col'] = st['line'], st['col']
 
 
 # --------------------------------------------------------------------------
